@@ -35,6 +35,8 @@ type OCase struct {
 	Holder   string   `json:"holder,omitempty"` // request parked on the fid
 	Inval    string   `json:"inval,omitempty"`  // clunk | remove
 	Rebind   bool     `json:"rebind,omitempty"` // held: bind the number again before the parked request returns
+	Cancel   bool     `json:"cancel,omitempty"` // the parked request is cancelled by a Tflush (the implementation's FlushOp calls SrvReq.Flush) and answers late
+	Drop     bool     `json:"drop,omitempty"`   // the client disconnects while the request is parked; it is released afterwards
 	Probes   []string `json:"probes"`
 }
 
@@ -189,8 +191,58 @@ func (o *orun) collect(m *ref9p.Msg, key string) (*ref9p.Msg, error) {
 	}
 }
 
+// waitDone waits until the implementation has finished with the request key
+// (its late answer was handed to the framework).
+func (o *orun) waitLog(kind, key string) error {
+	start := time.Now()
+	for {
+		for _, e := range o.S.Log() {
+			if e.Kind == kind && (key == "" || e.Key == key) {
+				return nil
+			}
+		}
+		if time.Since(start) > odeadline {
+			return &ohang{fmt.Sprintf("no %q entry for %s in the implementation's log", kind, key)}
+		}
+		time.Sleep(100 * time.Microsecond)
+	}
+}
+
+// cancel flushes the parked request m: the scripted FlushOp cancels it, the
+// Rflush arrives without a reply to m, then the parked operation is let go and
+// answers into the void.
+func (o *orun) cancel(m *ref9p.Msg, key string) error {
+	r, err := o.rpc(&ref9p.Msg{Type: ref9p.Tflush, Oldtag: m.Tag})
+	if err != nil {
+		return err
+	}
+	if r.Type != ref9p.Rflush {
+		return fmt.Errorf("Tflush of the parked %s: reply %s", ref9p.TypeName(m.Type), ref9p.TypeName(r.Type))
+	}
+	o.S.Release(key)
+	return o.waitLog("done", key)
+}
+
+// drop disconnects while m is parked, then lets it go.
+func (o *orun) drop(key, donekey string) error {
+	o.cl.Close()
+	if err := o.waitLog("connclosed", ""); err != nil {
+		return err
+	}
+	o.S.Release(key)
+	if donekey != "" {
+		return o.waitLog("done", donekey)
+	}
+	time.Sleep(2 * time.Millisecond) // AuthInit has no log entry of its own when it returns
+	return nil
+}
+
 func runOverlap(c *OCase) error {
-	sv := script.NewServer(script.Config{Msize: 8192, Dotu: true, Auth: c.Auth, Flush: script.FlushAbsent})
+	fl := script.FlushAbsent
+	if c.Cancel {
+		fl = script.FlushCancel
+	}
+	sv := script.NewServer(script.Config{Msize: 8192, Dotu: true, Auth: c.Auth, Flush: fl})
 	name := "c04-ov"
 	cl := rawc.New(sv.Dial(name))
 	cl.Timeout = odeadline
@@ -272,6 +324,32 @@ func (o *orun) pending() error {
 			}
 		}
 	}
+	if c.Drop {
+		// the fid the request binds after the disconnect must still be reported destroyed (finish)
+		dk := key
+		if c.Binder == "auth" {
+			dk = ""
+		}
+		return o.drop(key, dk)
+	}
+	if c.Cancel && c.Binder != "auth" {
+		if err := o.cancel(m, key); err != nil {
+			return err
+		}
+		// the cancelled request never made the fid valid, and left nothing behind
+		if err := o.unknown(fidN, "after the request that would have made it valid was cancelled"); err != nil {
+			return err
+		}
+		r, err := o.rpc(&ref9p.Msg{Type: ref9p.Twalk, Fid: 0, Newfid: fidN, Wname: []string{"d2"}})
+		if err != nil {
+			return err
+		}
+		if r.Type != ref9p.Rwalk {
+			return fmt.Errorf("after the %s that would have made fid %d valid was cancelled (and the implementation is done with it), a Twalk to that number is answered %s %q", ref9p.TypeName(m.Type), fidN, ref9p.TypeName(r.Type), r.Ename)
+		}
+		_, err = o.served(fidN, "after a walk bound the number of a cancelled request")
+		return err
+	}
 	r, err := o.collect(m, key)
 	if err != nil {
 		return err
@@ -334,6 +412,42 @@ func (o *orun) held() error {
 	key := script.Key(ref9p.Canon(m, o.cl.Dotu))
 	if err := o.park(m, key, script.Behav{}); err != nil {
 		return err
+	}
+	if c.Drop {
+		return o.drop(key, key)
+	}
+	if c.Cancel {
+		// the cancelled request must not keep the fid alive: after a clunk it is gone
+		if err := o.cancel(m, key); err != nil {
+			return err
+		}
+		if inc, err := o.served(fidN, "after a request on it was cancelled"); err != nil {
+			return err
+		} else if inc != old {
+			return fmt.Errorf("after a request on it was cancelled the fid is another object (incarnation %d, was %d)", inc, old)
+		}
+		if c.Holder == "walk" {
+			if err := o.unknown(fidM, "after the Twalk that would have made it valid was cancelled"); err != nil {
+				return err
+			}
+		}
+		if r, err := o.rpc(&ref9p.Msg{Type: ref9p.Tclunk, Fid: fidN}); err != nil || r.Type != ref9p.Rclunk {
+			return fmt.Errorf("Tclunk after the cancelled request: %v %+v", err, r)
+		}
+		if err := o.unknown(fidN, "after Rclunk"); err != nil {
+			return err
+		}
+		// its destruction must have been reported by now: nothing refers to it any more
+		n := 0
+		for _, e := range o.S.Log() {
+			if e.Kind == "fiddestroy" && e.Inc == old {
+				n++
+			}
+		}
+		if n != 1 {
+			return fmt.Errorf("fid %d was clunked after a request on it had been cancelled (and the implementation was done with it): its destruction was reported %d times when Rclunk arrived, want once", fidN, n)
+		}
+		return nil
 	}
 	// the invalidating request, answered while the parked one is still inside
 	im := &ref9p.Msg{Type: ref9p.Tclunk, Fid: fidN}
@@ -462,6 +576,12 @@ func executeOverlap(test string, c *OCase) error {
 	b, _ := json.Marshal(c)
 	hx.NonTrivial(b) // every case overlaps a request with the (in)validation of its fid
 	hx.Label("overlap " + c.Scenario + " " + c.Binder + c.Holder + "/" + c.Inval)
+	if c.Cancel {
+		hx.Label("overlap: parked request cancelled by Tflush")
+	}
+	if c.Drop {
+		hx.Label("overlap: disconnect while parked")
+	}
 	hx.Sample(test, c)
 	err := runOverlap(c)
 	if h, ok := err.(*ohang); ok {
@@ -479,6 +599,12 @@ func genOverlap(t *rapid.T) *OCase {
 	c.Scenario = rapid.SampledFrom([]string{"pending", "held"}).Draw(t, "scenario")
 	c.Fail = rapid.IntRange(0, 3).Draw(t, "fail") == 0
 	c.Probes = rapid.SliceOfN(rapid.SampledFrom(probeKinds), 1, 6).Draw(t, "probes")
+	switch rapid.IntRange(0, 5).Draw(t, "ending") {
+	case 0:
+		c.Cancel = true
+	case 1:
+		c.Drop = true
+	}
 	if c.Scenario == "pending" {
 		bs := []string{"attach", "clone", "walk"}
 		if c.Auth {
@@ -537,6 +663,23 @@ func TestEnumOverlap(t *testing.T) {
 								try(&OCase{Dotu: dotu, Auth: auth, Scenario: "held", Holder: h, Inval: iv, Fail: fail, Rebind: rb, Probes: []string{p}})
 							}
 						}
+					}
+				}
+			}
+		}
+	}
+	for _, dotu := range []bool{false, true} {
+		for _, auth := range []bool{false, true} {
+			for _, fail := range []bool{false, true} {
+				for _, ending := range []string{"cancel", "drop"} {
+					for _, b := range []string{"attach", "clone", "walk", "auth"} {
+						if b == "auth" && !auth {
+							continue
+						}
+						try(&OCase{Dotu: dotu, Auth: auth, Scenario: "pending", Binder: b, Fail: fail, Cancel: ending == "cancel", Drop: ending == "drop", Probes: []string{"stat"}})
+					}
+					for _, h := range []string{"read", "write", "wstat", "open", "walk", "create"} {
+						try(&OCase{Dotu: dotu, Auth: auth, Scenario: "held", Holder: h, Inval: "clunk", Fail: fail, Cancel: ending == "cancel", Drop: ending == "drop", Probes: []string{"stat"}})
 					}
 				}
 			}
